@@ -1226,8 +1226,15 @@ func Run(r *common.Run) error {
 	nBehind := r.Pick(40, 600)
 	for i := 0; i < nBehind; i++ {
 		cfg := cfgs[rnd.Intn(len(cfgs))]
-		toks := noForeign(cfg, call{entry: "send", toks: genElement(rnd, 0, true, 0)}).toks
-		next := noForeign(cfg, call{entry: "send", toks: genElement(rnd, 0, true, 0)}).toks
+		bigH, bigN := 0, 0
+		if i%8 == 0 {
+			bigH = 4000 + rnd.Intn(20000) // larger than the encoder's buffer: bytes reach the connection while the lock is held
+		}
+		if i%8 == 4 {
+			bigN = 4000 + rnd.Intn(20000)
+		}
+		toks := noForeign(cfg, call{entry: "send", toks: genElement(rnd, 0, true, bigH)}).toks
+		next := noForeign(cfg, call{entry: "send", toks: genElement(rnd, 0, true, bigN)}).toks
 		cl, ok := behindCall(pickS(rnd, []string{"send", "sendel", "enc", "encel", "tw"}), next)
 		if !ok || len(toks) < 3 {
 			continue
